@@ -36,7 +36,8 @@ RULE = ("histories of 1-10 operations over charts of the five games (0-12 hits, 
         "group/combinations, two sharing operations as negative controls; `append` is given a list of the same class, any other "
         "list of the pool, a cut-down list or a hand-made DataFrame, all snapshotted as arguments; lists are built from a frame, "
         "by `from_dict` or by `empty`+assignment; 45% of the steps take the newest compatible object of the pool, i.e. "
-        "second-generation inputs; the class-level list defaults of `_props` are cells of the heap from the start); distinct = distinct canonical JSON; non-trivial = "
+        "second-generation inputs; move targets are arbitrary or the list's current first/last offset, empty lists included; "
+        "Quaver notes carry 0-4 key sounds (names or {Sample, Volume} entries) in arbitrary order; the class-level list defaults of `_props` are cells of the heap from the start); distinct = distinct canonical JSON; non-trivial = "
         "at least one call returned and its arguments held at least one non-empty frame")
 ASSUMPTIONS = [
     "effect signatures are observed, not proved: the theorems are about any behaviour within the table's signatures, the "
@@ -133,6 +134,19 @@ def gen_labels(rng, n):
     return xs
 
 
+KS_NAMES = ["snare.wav", "kick.wav", "hat.wav", "a.ogg", "z.wav", "b.ogg"]
+
+
+def gen_keysounds(rng):
+    """key sounds of one note: none, one, or several in ARBITRARY order; file names or the reader's
+    `{Sample, Volume}` entries"""
+    r = rng.random()
+    k = 0 if r < 0.4 else 1 if r < 0.6 else rng.choice([2, 2, 3, 4])
+    if rng.random() < 0.25:
+        return [dict(Sample=rng.randint(1, 9), Volume=rng.choice([20, 50, 100])) for _ in range(k)]
+    return [rng.choice(KS_NAMES) for _ in range(k)]
+
+
 def gen_list(rng, game, slot, keys, n, flags=None):
     """column -> values (only the columns that are not left at their default)"""
     d = {}
@@ -174,7 +188,7 @@ def gen_list(rng, game, slot, keys, n, flags=None):
             d["custom_set"] = [rng.choice([0, 0, 5]) for _ in range(n)]
     if game == "quaver" and slot in ("hits", "holds"):
         if (flags or {}).get("qua_lists", rng.random() < 0.3):        # list-valued cells (what the reader produces)
-            d["keysounds"] = [[] if rng.random() < 0.6 else [rng.choice(["k1", "k2"])] for _ in range(n)]
+            d["keysounds"] = [gen_keysounds(rng) for _ in range(n)]
     if game == "bms" and slot in ("hits", "holds") and (flags or {}).get("bms_bytes", True):
         d["sample"] = ["%02d" % rng.randrange(1, 40) for _ in range(n)]      # bytes on construction
     if game == "o2jam" and slot in ("hits", "holds") and rng.random() < 0.5:
@@ -186,7 +200,7 @@ def gen_list(rng, game, slot, keys, n, flags=None):
 def gen_map(rng, game, keys, small=False, large=False):
     top_h, top_l = (4, 3) if small else (30, 16) if large else (12, 8)
     lists = {}
-    flags = dict(qua_lists=rng.random() < 0.3, bms_bytes=rng.random() < 0.92)
+    flags = dict(qua_lists=rng.random() < 0.45, bms_bytes=rng.random() < 0.92)
     for slot in SLOTS[game]:
         if slot == "hits":
             n = rng.randint(0, top_h)
@@ -302,7 +316,9 @@ def gen_step(rng, op, game):
     elif op == "list.append_item":
         a = dict(sort=rng.random() < 0.4, offset=g_off(rng))
     elif op in ("list.move_start_to", "list.move_end_to"):
-        a = dict(to=g_off(rng))
+        # target: arbitrary, or a boundary value — the list's current first / last offset (tail included for holds),
+        # where nothing moves and the result must still be a new object
+        a = dict(to=g_off(rng), at=rng.choice(["any", "any", "first", "last", "same"]))
     elif op == "list.slice":
         a = dict(a=rng.randint(0, 3), b=rng.randint(2, 8))
     elif op in ("map.rate", "mapset.rate"):
@@ -439,6 +455,19 @@ def corpus():
                                        _st("alg.full_ln", recent=True, gap=150, thres=100), _st("list.after", src=0, offset=100, include_end=True, flag=False),
                                        _st("list.deepcopy", src=0)]))
     c.append(_h("quaver", 4, [qua], [_st("alg.full_ln", gap=150, thres=100), _st("alg.full_ln", recent=True, gap=150, thres=100)]))
+    # several key sounds per note in arbitrary order (only the order inside a nested list could change), both writers' lists
+    quak = dict(lists=dict(hits=_lst(dict(offset=[0, 250, 500, 1000], column=[0, 1, 2, 3],
+                                          keysounds=[[], ["snare.wav", "kick.wav"], ["hat.wav"], ["b.ogg", "c.ogg", "a.ogg"]])),
+                           holds=_lst(dict(offset=[1500, 2500], column=[0, 2], length=[400, 250],
+                                           keysounds=[["z.wav", "y.wav"], [dict(Sample=3, Volume=50), dict(Sample=1, Volume=20)]])),
+                           bpms=_lst(dict(offset=[0], bpm=[120])), svs=_lst(dict(offset=[], multiplier=[]))),
+                meta=dict(title="k", mode="Keys4", tags=[]))
+    c.append(_h("quaver", 4, [quak], [_st("write.quaver"), _st("map.rate", by=2), _st("write.quaver", recent=True), _st("map.deepcopy")]))
+    # move to where the list already is (first / last offset, tail included for holds), and an empty list
+    c.append(_h("osu", 4, [osu1], [_st("list.move_start_to", src=0, to=0, at="first"), _st("list.move_end_to", src=0, to=0, at="last"),
+                                   _st("list.move_end_to", src=1, to=0, at="last"), _st("list.move_start_to", src=1, to=0, at="same")]))
+    c.append(_h("osu", 4, [osu2], [_st("list.move_start_to", src=1, to=100, at="any"), _st("list.move_end_to", src=1, to=100, at="last"),
+                                   _st("list.move_end_to", src=3, to=100, at="first")]))
     sm = dict(lists=dict(hits=_lst(dict(offset=[0, 500, 1000], column=[0, 1, 2])), holds=_lst(dict(offset=[250], column=[3], length=[250])),
                          bpms=_lst(dict(offset=[0, 2000], bpm=[120, 240])), fakes=_lst(dict(offset=[], column=[])),
                          lifts=_lst(dict(offset=[], column=[])), keysounds=_lst(dict(offset=[], column=[])),
@@ -521,7 +550,7 @@ def build_list(cls, spec):
             if c == "sample" and dt == object or (c == "sample" and vals and isinstance(vals[0], str)):
                 vals = [v.encode("ascii") for v in vals]
             if c == "keysounds":
-                vals = [list(v) for v in vals]
+                vals = [[dict(x) if isinstance(x, dict) else x for x in v] for v in vals]
         else:
             d = defaults.get(c)
             vals = [list(d) if isinstance(d, list) else d for _ in range(n)]
@@ -956,14 +985,21 @@ def prepare_call(step, pool):
             item = tl[0]
             item.offset = float(a["offset"])
             return [tl], (lambda: tl.append(item, sort=a["sort"])), lst
-        if op == "list.move_start_to":
-            if len(tl) == 0:
-                raise Skip()
-            return [tl], (lambda: tl.move_start_to(a["to"])), lst
-        if op == "list.move_end_to":
-            if len(tl) == 0:
-                raise Skip()
-            return [tl], (lambda: tl.move_end_to(a["to"])), lst
+        if op in ("list.move_start_to", "list.move_end_to"):
+            # empty lists are handed over too (the code raises for them today: `to - None`)
+            to = a["to"]
+            at = a.get("at", "any")
+            if at == "same":
+                at = "first" if op == "list.move_start_to" else "last"
+            try:
+                b = tl.first_offset() if at == "first" else tl.last_offset() if at == "last" else None
+                if b is not None:
+                    to = float(b)
+            except Exception:
+                pass
+            if op == "list.move_start_to":
+                return [tl], (lambda: tl.move_start_to(to)), lst
+            return [tl], (lambda: tl.move_end_to(to)), lst
         if op == "list.deepcopy":
             return [tl], (lambda: tl.deepcopy()), lst
         if op == "list.wrap":
